@@ -28,7 +28,7 @@ Small(x, tol) == x <= Max2(tol, Floor)
 (* property clauses on a Return event, given the Start parameters p          *)
 RetBad(e, p) ==
      { c \in {"Finite"}      : ~e.finite }
-  \cup { c \in {"Truthful"}  : e.finite /\ ~( \/ (e.info_lg <= Floor /\ e.true_lg <= Floor)
+  \cup { c \in {"Truthful"}  : e.finite /\ ~( \/ (e.info_lg <= Floor + p.condA_lg /\ e.true_lg <= Floor + p.condA_lg)   \* both at the rounding level eps*cond(A) of forming b - A x
                                               \/ (e.info_lg - e.true_lg <= SlackTruth /\ e.true_lg - e.info_lg <= SlackTruth) ) }
   \cup { c \in {"ConvSound"} : e.finite /\ e.converged /\ ~Small(e.true_lg, p.tol_lg + SlackConv + p.cond_lg) }
   \cup { c \in {"AtMostN"}   : e.finite /\ p.cap = NoCap /\ ~p.bzero /\ p.tol_lg >= Floor + p.cond_lg
@@ -60,7 +60,7 @@ Bad(e) ==
                           \cup { c \in {"ScaleIndependent"} : e.kind = "scale" /\ e.diff_lg > e.bound_lg }
                           \cup { c \in {"StorageIndependent"} : e.kind = "sparse" /\ e.diff_lg > e.bound_lg }
                           \cup { c \in {"ReusedSolverAnswersCurrentSystem"} : e.kind = "reuse" /\ e.diff_lg > e.bound_lg }
-    [] e.ev = "Opt"    -> { c \in {"CycleOptimal"} : e.res_lg > Floor /\ e.ratio_fx > FxOne + OptSlack }
+    [] e.ev = "Opt"    -> { c \in {"CycleOptimal"} : e.res_lg > Floor + e.cond_lg + 128 /\ e.ratio_fx > FxOne + OptSlack }   \* above the rounding level of the oracle's own least-squares solve
     [] OTHER -> {"UnknownEvent"}
 
 TInit == l = 1 /\ pc = "idle" /\ m = 0 /\ last = 0 /\ par = <<>> /\ nbad = 0
